@@ -38,7 +38,9 @@ GRIDS = [[0, 1], [0, 1, 2], [-1, 0, 1], [1, 2, 4, 8], [-3, -1, 0, 2, 5],
 SCALED = [([1600, 1700, 1800, 1900, 2000, 2100, 2200, 2300, 2400], 2000, 100),
           ([0, 1000, 2000, 3000, 4000, 5000], 2500, 1000),
           ([2451545.0 + 36525.0 * k for k in range(-3, 4)], 2451545, 36525),
-          ([0.0, 0.001, 0.002, 0.003, 0.004, 0.005, 0.006], 0, Fraction(1, 1000))]
+          ([0.0, 0.001, 0.002, 0.003, 0.004, 0.005, 0.006], 0, "1/1000"),
+          # Julian-day abscissae a minute apart (distinct, although equal to 3e-10 relative)
+          ([2451545.0 + k / 1440.0 for k in range(6)], 2451545, "1/1440")]
 COEFFS = [Fraction(1), Fraction(-3), Fraction(1, 2), Fraction(2), Fraction(-1, 10),
           Fraction(1, 4), Fraction(-1, 3), Fraction(1, 7), Fraction(-1, 20)]
 
@@ -268,6 +270,13 @@ ROOT_TABLES = {
               [-3, -2, -1.6, -1.4, 0.0, 0.9, 1.1, 2.0, 3.0, -7.5, 4.0, 0.5]),
     "lin1": ([-1.0, 0.0, 1.0], lambda x: x - 0.3,
              [-1, -0.5, 0.0, 0.2, 0.3, 0.4, 1.0, 2.0, -2.0, 0.29, 0.31, 0.9]),
+    # a flat spot away from the root (Newton's start sees a vanishing derivative), and tables symmetric about the
+    # mid-point of the search interval (the derivative there is exactly zero)
+    "quintic_flat": ([10, 11, 12, 13, 14, 15, 16, 17, 18, 19, 20], lambda x: ((x - 15.3) / 2.0) ** 5 + 0.02,
+                     [10, 12, 14, 15, 15.3, 15.5, 16, 18, 20, 9, 21, 13.7]),
+    "cubic_sym": ([-2, -1, 0, 1, 2], lambda x: x ** 3 + 3.0, [-2, -1.5, -1, 0, 1, 1.5, 2, -3, 3, 0.5, -0.5, 1.9]),
+    "cubic_sym2": ([0, 1, 2, 3, 4, 5, 6], lambda x: (x - 4.0) ** 3 + 2.0, [0, 2, 2.5, 3, 4, 5, 6, -1, 7, 1, 3.5, 4.5]),
+    "quartic_min": ([-3, -2, -1, 0, 1, 2, 3], lambda x: x ** 4 / 4.0 + 2.0 * x, [-3, -2, -1.5, -1, 0, 1, 2, 3, -4, 4, -1.3, -1.2]),
     "sine": ([1, 2, 3, 4, 5, 6, 7], math.sin,
              [1, 2, 3, 3.1, 3.2, 4, 5, 6, 6.2, 6.3, 7, 0.0, 8.0, 6.5]),
     "offset": ([27.0, 27.5, 28.0, 28.5, 29.0], lambda x: (x - 28.1) * (x - 26.0) * 0.3,
